@@ -105,6 +105,7 @@ def kernel(W, p):
 
 
 def signature(v, scen):
+    tag = scen["params"].get("adv") or scen["params"].get("mode")
     if v["kind"] == "crash":
-        return f"crash:{v['info'].get('exception')}:{scen['params']['adv']}"
-    return f"{v['clause']}:{scen['params']['adv']}"
+        return f"crash:{v['info'].get('exception')}:{tag}"
+    return f"{v['clause']}:{tag}"
